@@ -289,6 +289,43 @@ def split_rule(ctx, body, paths, al):
             okc = is_sep(lo0[3], plus=(0, 1))
             backs = [q for q in paths if q.end[0] == "back" and q.end[1] == h]
             okc = okc and bool(backs)
+            # index-driven spelling: while idx < len && bytes[idx] is blank { idx += 1 }
+            def at_cursor(t):
+                t = strip_refs(t)
+                while isinstance(t, tuple) and t and t[0] in ("deref",):
+                    t = strip_refs(t[1])
+                if isinstance(t, tuple) and t and t[0] == "index":
+                    b_ = t[1]
+                    while isinstance(b_, tuple) and b_ and b_[0] in ("deref", "ref"):
+                        b_ = b_[1]
+                    return whole_line(b_) and isinstance(t[2], tuple) and t[2][0] == "havoc" and t[2][1] == cur and t[2][2] == h
+                return False
+
+            def below_len(c):
+                """True / False if the condition says cursor < len(line) / cursor >= len(line), else None"""
+                t = c.term
+                if isinstance(t, tuple) and t and t[0] == "binop" and t[1] in ("Lt", "Ge", "Ne", "Eq") and isinstance(t[2], tuple) and t[2][0] == "havoc" and t[2][1] == cur \
+                        and length_of(t[3]) is not None and whole_line(length_of(t[3])) and isinstance(c.fact[1], bool):
+                    return c.fact[1] == (t[1] in ("Lt", "Ne"))
+                return None
+            idx_form = bool(backs) and all(any(below_len(c) is True for c in q.conds()) for q in backs) and not any(
+                c.term[0] == "discr" and is_call(strip_refs(c.term[1]), "Iterator>::next") and c.bb in body.loops.get(h, ()) for q in backs for c in q.conds())
+            if idx_form:
+                for q in backs:
+                    blank = [c for c in q.conds() if is_call(c.term, "is_ascii_whitespace") and at_cursor(call_args(c.term)[0])]
+                    v = q.env.get(cur)
+                    step = isinstance(v, tuple) and v[0] == "binop" and v[1] == "Add" and isinstance(v[2], tuple) and v[2][0] == "havoc" and v[2][1] == cur and const_int(v[3]) == 1
+                    okc = okc and bool(blank) and blank[-1].fact == ("eq", True) and step
+                # this path left the loop at the end of the line or at the first non-blank byte
+                bl = [below_len(c) for c in p.conds() if below_len(c) is not None]
+                if bl and bl[-1] is True:
+                    blank = [c for c in p.conds() if is_call(c.term, "is_ascii_whitespace") and at_cursor(call_args(c.term)[0])]
+                    okc = okc and bool(blank) and blank[-1].fact == ("eq", False)
+                elif not bl:
+                    okc = False
+                if not okc:
+                    bada.append("the cursor the argument starts at does not start at the separator and move one byte per leading blank")
+                continue
             for q in backs:
                 nx = [c for c in q.conds() if c.term[0] == "discr" and is_call(strip_refs(c.term[1]), "Iterator>::next") and c.bb in body.loops.get(h, ())]
                 item = ("field", ("downcast", nx[-1].term[1], "Some"), 0, "0") if nx else None
@@ -374,6 +411,13 @@ def run(ctx):
                         src = strip_refs(src[2] if src[0] == "loc" and len(src) > 2 else src[1])
                     if is_call(src, "[T]>::iter") and strip_refs(call_args(src)[0]) == strip_refs(call_args(ix[0])[0]) and canon_range(call_args(ix[0])[0], call_args(ix[0])[1])[1] == LEN:
                         est = True
+            # ... or the slice that becomes the argument was itself tested non-empty (Some(rest).filter(|r| !r.is_empty()))
+            for c in p.conds():
+                t_, truth_ = c.term, c.fact[1] if c.fact[0] == "eq" and isinstance(c.fact[1], bool) else None
+                while isinstance(t_, tuple) and t_ and t_[0] == "unop" and t_[1] == "Not" and truth_ is not None:
+                    t_, truth_ = t_[2], not truth_
+                if ix and truth_ is False and is_call(t_, "[T]>::is_empty", "::is_empty") and strip_refs(call_args(t_)[0]) == ix[0]:
+                    est = True
             for c in p.conds():
                 t = c.term
                 if isinstance(t, tuple) and t and t[0] == "binop" and t[1] in ("Eq", "Ne", "Lt", "Ge", "Gt", "Le") and lo is not None and c.fact[0] == "eq" and isinstance(c.fact[1], bool):
